@@ -5,7 +5,9 @@ import OmplModel.Props.C10
 #print axioms OmplModel.NN.linear_remove_result
 #print axioms OmplModel.NN.sqrt_member
 #print axioms OmplModel.NN.sqrt_size_list_abs
-#print axioms OmplModel.NN.gnat_inv_descends_partial
-#print axioms OmplModel.NN.gnat_sibling_prune_sound_partial
-#print axioms OmplModel.NN.gnat_radius_prune_sound_partial
-#print axioms OmplModel.NN.gnat_leaf_scanR_exact_partial
+#print axioms OmplModel.NN.gnat_child_orders_are_permutations
+#print axioms OmplModel.NN.nearestK_exact
+#print axioms OmplModel.NN.nearestR_exact
+#print axioms OmplModel.NN.nearest_exact
+#print axioms OmplModel.NN.l1_metric
+#print axioms OmplModel.NN.sampleGnat_wf
